@@ -199,6 +199,9 @@ CALLABLES = {
     'conv121s': lambda x: np.convolve(x, [1, 2, 1], 'same'),
     'first': lambda x: x[:1],
 }
+# the convolutions above in the string form of convolve_dim: mode, weights
+CONVDEFS = {'conv11v': 'valid,1,1', 'conv11f': 'full,1,1',
+            'conv121s': 'same,1,2,1'}
 PYOP = {'+': '__add__', '-': '__sub__', '*': '__mul__', '/': '__truediv__',
         '//': '__floordiv__', '%': '__mod__', '**': '__pow__',
         '<': '__lt__', '<=': '__le__', '>': '__gt__', '>=': '__ge__',
@@ -254,6 +257,17 @@ def call(objs, st, tmp):
         for s in a['sels']:
             kw[s['d']] = py_sel(s['s'])
         return f.sliceDimensions(newdims=(a['newdim'],), **kw)
+    if act == 'apply' and a.get('via') == 'reduce_dim':
+        # string form 'dim,function' of the command line tools
+        from PseudoNetCDF.core._functions import reduce_dim
+        fn = a['funcs'][0]
+        return _drop_history(f, reduce_dim(f, '%s,%s' % (fn['d'], fn['f']),
+                                           fuzzydim=False, metakeys=[]))
+    if act == 'apply' and a.get('via') == 'convolve_dim':
+        from PseudoNetCDF.core._functions import convolve_dim
+        fn = a['funcs'][0]
+        return _drop_history(f, convolve_dim(
+            f, '%s,%s' % (fn['d'], CONVDEFS[fn['f']])))
     if act == 'apply':
         kw = {}
         for fn in a['funcs']:
@@ -288,6 +302,15 @@ def call(objs, st, tmp):
         return f.insertDimension(**kw)
     if act == 'reorder':
         return f.reorderDimensions(tuple(a['old']), tuple(a['new']))
+    if act == 'mask' and a.get('via') == 'mask_vals':
+        # the string form 'condition,value' of the command line tools; it
+        # works in place, so it is given a copy
+        from PseudoNetCDF.core._functions import mask_vals
+        g = f.copy()
+        meta = [] if a['coords'] else [str(k) for k in f.getCoords()]
+        mask_vals(g, '%s,%d' % (a['p'][0]['k'], a['p'][0]['v']),
+                  metakeys=meta)
+        return g
     if act == 'mask':
         kw = {p['k']: p['v'] for p in a['p']}
         if a['where']['h']:
@@ -302,6 +325,10 @@ def call(objs, st, tmp):
     if act == 'eval':
         expr = '; '.join('%s = %s' % (x['name'], expr_str(x['e']))
                          for x in a['assign'])
+        if a.get('via') == 'pncexpr':
+            # the module-level form used by the command line tools
+            from PseudoNetCDF.core._functions import pncexpr
+            return pncexpr(expr, f)
         return f.eval(expr, copyall=a['copyall'])
     if act == 'writeall':
         for k in list(f.variables.keys()):
@@ -497,6 +524,12 @@ def _gen_step(rnd, sh, src, shadows, focus=None, strict=False):
                 fs.append({'d': d, 'kind': 'callable',
                            'f': rnd.choice(sorted(CALLABLES))})
         a['funcs'] = fs
+        # the string forms reduce_dim / convolve_dim of a single function
+        if len(fs) == 1 and rnd.random() < 0.35:
+            if fs[0]['kind'] == 'reducer':
+                a['via'] = 'reduce_dim'
+            elif fs[0]['f'] in CONVDEFS:
+                a['via'] = 'convolve_dim'
     elif act == 'stack':
         a['dim'] = rnd.choice(dims)
         k = rnd.randint(1, 2)
@@ -555,6 +588,8 @@ def _gen_step(rnd, sh, src, shadows, focus=None, strict=False):
             if rnd.random() < 0.5:
                 a['usedims'] = {'h': True, 'v': list(sh.vars[vk])}
         a['coords'] = rnd.random() < 0.3
+        if len(a['p']) == 1 and not a['where']['h'] and rnd.random() < 0.5:
+            a['via'] = 'mask_vals'
     elif act == 'arith':
         a['op'] = rnd.choice(sorted(PYOP))
         cands = [i + 1 for i, s2 in enumerate(shadows)
@@ -591,6 +626,9 @@ def _gen_step(rnd, sh, src, shadows, focus=None, strict=False):
         a['assign'] = [{'name': 'NEW%d' % i, 'e': rexpr(2)}
                        for i in range(rnd.randint(1, 2))]
         a['copyall'] = rnd.random() < 0.5
+        # pncexpr(expr, file): all variables are kept
+        if a['copyall'] and rnd.random() < 0.4:
+            a['via'] = 'pncexpr'
     return st
 
 
@@ -610,6 +648,7 @@ def gen_program(rnd, depth, focus=None, isolation=False, templates=None):
     tps.append(tps[0])
     objs.append(template(tps[0]))
     steps = []
+    share = []      # classes of objects that wrap each other's variables
     tmp = scratch('gen')
     try:
         for n in range(depth):
@@ -638,11 +677,25 @@ def gen_program(rnd, depth, focus=None, isolation=False, templates=None):
                     new = call(objs, st, tmp)
                 if new is not None:
                     objs.append(new)
+                    # objects that share variables by construction: pncexpr
+                    # wraps its input (classes of the "wraps" relation)
+                    if st['args'].get('via') == 'pncexpr':
+                        comp = [c for c in share if st['src'] in c]
+                        if comp:
+                            comp[0].add(len(objs))
+                        else:
+                            share.append({st['src'], len(objs)})
                     if isolation and rnd.random() < 0.6:
                         steps.append({k: v for k, v in st.items()
                                       if k != '_n'})
                         w = {'act': 'writeall', 'src': len(objs),
-                             'others': [], 'args': {}}
+                             'others': [],
+                             'args': {'derived': {
+                                 'act': st['act'], 'src': st['src'],
+                                 'via': st['args'].get('via', 'method'),
+                                 'wraps': sorted(set().union(*(
+                                     [c for c in share if len(objs) in c]
+                                     or [set()])) - {len(objs)})}}}
                         call(objs, w, tmp)
                         steps.append(w)
                         continue
